@@ -111,8 +111,10 @@ struct Member {
     uint64_t sig; // access-set hash of the current epoch
     bool wrote;
     int icv; // nthreads-var of this implicit task
+    long singles; // single constructs this member has encountered
 };
 struct Team {
+    long singles_taken; // single constructs already executed by some member
     int n;
     Member* m;
     void (*fn)(void*);
@@ -638,6 +640,7 @@ void GOMP_parallel(void (*fn)(void*), void* data, unsigned num_threads, unsigned
     team.data          = data;
     team.parent        = nullptr;
     team.parent_member = -1;
+    team.singles_taken = 0;
     for (int i = 0; i < n; i++) {
         Member& m = team.m[i];
         m.stack   = (char*)mmap(nullptr, STACK, PROT_READ | PROT_WRITE, MAP_PRIVATE | MAP_ANONYMOUS | MAP_STACK, -1, 0);
@@ -725,10 +728,19 @@ void GOMP_parallel(void (*fn)(void*), void* data, unsigned num_threads, unsigned
     free(team.m);
 }
 
+// single: the member that reaches the construct first executes it (which one that is follows the epoch's permutation); the
+// implicit barrier at its end is an ordinary GOMP_barrier emitted by the compiler (absent with nowait)
 bool GOMP_single_start(void)
 {
-    unsupported("single");
-    return true;
+    if (!g_active || g_member < 0 || (g_frames.n && g_frames[g_frames.n - 1].num_threads == 1))
+        return true;
+    Member& me = g_active->m[g_member];
+    me.singles++;
+    if (g_active->singles_taken < me.singles) {
+        g_active->singles_taken = me.singles;
+        return true;
+    }
+    return false;
 }
 void GOMP_task(void)
 {
@@ -757,12 +769,30 @@ void GOMP_critical_end(void)
 {
     g_lock = 0;
 }
-void GOMP_critical_name_start(void**)
+// named critical sections: one lock per name (the compiler passes the address of the name's lock word)
+void GOMP_critical_name_start(void** pptr)
 {
-    unsupported("named critical");
+    if (g_lock)
+        unsupported("nested critical / atomic");
+    static void* names[200];
+    static int nnames = 0;
+    int id = -1;
+    for (int i = 0; i < nnames; i++)
+        if (names[i] == (void*)pptr)
+            id = i;
+    if (id < 0) {
+        if (nnames >= 200)
+            unsupported("more than 200 named critical sections");
+        names[nnames] = (void*)pptr;
+        id            = nnames++;
+    }
+    g_lock = (uint8_t)(3 + id);
+    if (g_st)
+        g_st->critical_sections++;
 }
 void GOMP_critical_name_end(void**)
 {
+    g_lock = 0;
 }
 void GOMP_atomic_start(void)
 {
